@@ -398,10 +398,12 @@ fn gen_program(r: &mut Rng) -> Gen {
     let mut blocks: Vec<Vec<It>> = vec![];
     for _ in 0..nblocks {
         let n = match r.below(10) { 0 => 0, 1 => r.range(12, 25) as usize, _ => r.range(1, 9) as usize };
-        let body = gen_block_body(r, &mut g, n);
+        let mut body = gen_block_body(r, &mut g, n);
+        if r.chance(1, 24) { let k = r.range(2, 20) as u16; body.insert(0, It { labels: vec![], nuc: Nuc::Blkw(k) }); g.faults.push("first_stmt_at_top"); }
+        let top = matches!(g.faults.last(), Some(&"first_stmt_at_top"));
         let len: i64 = body.iter().map(|x| x.size()).sum();
         // origin
-        let origin = match r.below(16) {
+        let origin = match if top { 5 } else { r.below(16) } {
             0 | 1 => { // end placed at a boundary
                 let e = *r.pick(&[0xFDFFi64, 0xFE00, 0xFE00, 0xFE00, 0xFE01, 0xFFFF, 0x10000, 0x10001]);
                 if e > 0xFE00 { g.faults.push("block_past_limit"); }
@@ -413,7 +415,11 @@ fn gen_program(r: &mut Rng) -> Gen {
                 o.clamp(0, 0xFFFF)
             }
             4 => *r.pick(&[0i64, 0, 1, 0x2FFF, 0x3000, 0x3000, 0xFDFF, 0xFE00, 0xFE01, 0xFFFF]),
-            5 => r.range(0, 0xFFFF),
+            5 if top => { // the first memory-occupying statement ends at / one short of / one past x10000
+                let first = body.iter().map(|x| x.size()).find(|&n| n > 0).unwrap_or(1);
+                (*r.pick(&[0xFFFFi64, 0x10000, 0x10001, 0x10002]) - first).clamp(0, 0xFFFF)
+            }
+            5 | 6 => r.range(0, 0xFFFF),
             _ => (r.range(0, 0xF0) << 8) + if r.chance(1, 2) { 0 } else { r.range(0, 255) },
         };
         placed.push((origin, origin + len));
